@@ -13,3 +13,4 @@ def rules(ctx):
     S.refcount_rules(ctx)
     S.cache_reset_rules(ctx)
     S.header_codec_rules(ctx)
+    S.child_pair_rules(ctx)
